@@ -115,13 +115,13 @@ func (e *Env) Container() (container.Environment, error) {
 	b := container.Builder{Root: root, Mounts: mb.Mounts}
 	// Build pings the fresh init with a short deadline: on a loaded machine give it several chances
 	var err error
-	for try := 0; try < 8; try++ {
+	for try := 0; try < 12; try++ {
 		var c container.Environment
 		if c, err = b.Build(); err == nil {
 			e.cont = c
 			return c, nil
 		}
-		time.Sleep(time.Duration(200*(try+1)) * time.Millisecond)
+		time.Sleep(time.Duration(300*(try+1)) * time.Millisecond)
 	}
 	return nil, err
 }
@@ -272,7 +272,7 @@ func (e *Env) Run(s Spec) (out Outcome) {
 	}
 	dl := s.Deadline
 	if dl == 0 {
-		dl = 60 * time.Second
+		dl = 180 * time.Second
 	}
 	ctx, cancel := context.WithTimeout(context.Background(), dl)
 	defer cancel()
